@@ -27,6 +27,7 @@ type HarnessSpec struct {
 	Native     string // native replay function ("" = the harness itself)
 	NoReplay   bool   // violations of this harness are confirmed by Native only
 	Race       bool   // replay under the race detector; a reported data race reproduces the violation
+	NativeOnly bool   // not a gosym harness: run natively (confirmation of a stated assumption)
 	Bounds     map[string]any
 }
 
@@ -176,7 +177,59 @@ func cmdCheck(args []string) int {
 	return 0
 }
 
+// runNativeOnly runs a harness function as an ordinary test against /repo.
+func (c *checkCtx) runNativeOnly(h HarnessSpec) {
+	dir := filepath.Join(c.work, "native-"+h.Fn)
+	os.MkdirAll(dir, 0o755)
+	in := map[string]any{"harness": h.Fn, "package": h.Pkg, "label": "", "inputs": map[string]any{}}
+	b, _ := json.Marshal(in)
+	os.WriteFile(filepath.Join(dir, "inputs.json"), b, 0o644)
+	t0 := time.Now()
+	_, out := nativeReplay(dir, c.work)
+	failed := map[string]bool{}
+	for _, l := range strings.Split(out, "\n") {
+		if strings.HasPrefix(l, "VERIF_ASSERT_FAILED label=") {
+			failed[strings.TrimPrefix(l, "VERIF_ASSERT_FAILED label=")] = true
+		}
+	}
+	ran := strings.Contains(out, "ok  \t") || strings.Contains(out, "--- FAIL")
+	c.harnessRes = append(c.harnessRes, map[string]any{"harness": h.Fn, "package": h.Pkg, "native_only": true, "failed_labels": len(failed), "wall_s": time.Since(t0).Seconds(), "bounds": h.Bounds})
+	c.replayed++
+	if !ran || strings.Contains(out, "VERIF_PANIC") {
+		c.inconclusive(fmt.Sprintf("%s: native run did not complete: %s", h.Fn, lastLines(out, 5)))
+		return
+	}
+	var labels []string
+	for l := range failed {
+		labels = append(labels, l)
+	}
+	sort.Strings(labels)
+	for _, lab := range labels {
+		if f, ok := c.isKnown(lab, h.Fn); ok {
+			c.known = append(c.known, fmt.Sprintf("KNOWN-FINDING: property=%s %s [%s in %s]", c.spec.ID, f.What, lab, h.Fn))
+			continue
+		}
+		keep := filepath.Join(verifDir(), "replays", c.spec.ID, "native-"+h.Fn)
+		os.MkdirAll(keep, 0o755)
+		os.WriteFile(filepath.Join(keep, "inputs.json"), b, 0o644)
+		os.WriteFile(filepath.Join(keep, "native_output.txt"), []byte(out), 0o644)
+		c.violations = append(c.violations, fmt.Sprintf("VIOLATION property=%s replay=%s label=%s harness=%s", c.spec.ID, keep, lab, h.Fn))
+	}
+}
+
+func lastLines(s string, n int) string {
+	ls := strings.Split(strings.TrimSpace(s), "\n")
+	if len(ls) > n {
+		ls = ls[len(ls)-n:]
+	}
+	return strings.Join(ls, " | ")
+}
+
 func (c *checkCtx) runHarness(h HarnessSpec, workers int) {
+	if h.NativeOnly {
+		c.runNativeOnly(h)
+		return
+	}
 	e := c.eng
 	e.Cfg = gosym.DefaultConfig()
 	e.Cfg.Workers = workers
